@@ -81,6 +81,9 @@ package rules
 //   under the lock) + entry lock context: a function is entered with the lock held iff EVERY value use of it is the
 //   decorated argument of such a decorator (h: DELETE entry left bare → violation at deleteObject naming the registration
 //   site). Correct variants /tmp/vw/C18/out/{g,h}-correct.diff silent; mutants g1-g4, h1-h4 reported; g5, h5 silent.
+// Third iteration (r9..r12 silent): an unexported interface in front of the etcd session mutex (`remote sessionLocker`)
+//   is resolved through the stores into fields of that interface type — all of them *concurrency.Mutex values
+//   (c18resolveEtcdFronts); mutants on the r11 / r12 shapes (r11m1-2, r12m1-5) are still reported.
 // Behaviour-preserving edits that stay silent (exit unchanged): P1 renamed locals + `nil != err || p` + `return err`;
 // P2 Lock without named result (`done` flag, explicit `return e`); P3 Unlock with the etcd error in a local and explicit
 // order; P4 `return m.m.Lock(ctx)` with recover-and-repanic closure; P5 double-checked RWMutex table; P6 sync.Map
@@ -150,6 +153,7 @@ func c18MutexTypes(c *core.Ctx) []*types.Named {
 	if pkg == nil || iface == nil {
 		return nil
 	}
+	c18resolveEtcdFronts(pkg)
 	it, ok := iface.Underlying().(*types.Interface)
 	if !ok {
 		c.Errorf("anchor: %s.Mutex is not an interface", c18cl)
@@ -185,7 +189,110 @@ func c18isEtcdMutex(t types.Type) bool {
 		t = p.Elem()
 	}
 	n, ok := t.(*types.Named)
-	return ok && n.Obj().Pkg() != nil && n.Obj().Pkg().Path()+"."+n.Obj().Name() == c18etcdMutex
+	if !ok || n.Obj().Pkg() == nil {
+		return false
+	}
+	return n.Obj().Pkg().Path()+"."+n.Obj().Name() == c18etcdMutex || c18etcdFronts[n.Obj()]
+}
+
+// c18etcdFronts holds the interfaces of pkg/cluster that stand in front of the etcd session mutex: a
+// struct field of such an interface type is only ever given *concurrency.Mutex values in the package
+// (`remote sessionLocker` … `remote: concurrency.NewMutex(session, name)`), so a call through the
+// interface is a call of the etcd mutex.
+var c18etcdFronts = map[*types.TypeName]bool{}
+
+func c18resolveEtcdFronts(pkg *packages.Package) {
+	c18etcdFronts = map[*types.TypeName]bool{}
+	info := pkg.TypesInfo
+	type tally struct{ etcd, other int }
+	stores := map[*types.Var]*tally{} // per struct field of a package-local interface type
+	note := func(fld *types.Var, rhs ast.Expr) {
+		n, ok := fld.Type().(*types.Named)
+		if !ok || n.Obj().Pkg() != pkg.Types || !types.IsInterface(n) {
+			return
+		}
+		t := stores[fld]
+		if t == nil {
+			t = &tally{}
+			stores[fld] = t
+		}
+		tv, ok := info.Types[rhs]
+		if ok && tv.IsNil() {
+			return
+		}
+		if ok && tv.Type != nil {
+			rt := tv.Type
+			if p, isPtr := rt.(*types.Pointer); isPtr {
+				rt = p.Elem()
+			}
+			if rn, isNamed := rt.(*types.Named); isNamed && rn.Obj().Pkg() != nil && rn.Obj().Pkg().Path()+"."+rn.Obj().Name() == c18etcdMutex {
+				t.etcd++
+				return
+			}
+		}
+		t.other++
+	}
+	for _, file := range pkg.Syntax {
+		ast.Inspect(file, func(x ast.Node) bool {
+			switch t := x.(type) {
+			case *ast.CompositeLit:
+				tv, ok := info.Types[t]
+				if !ok || tv.Type == nil {
+					return true
+				}
+				ct := tv.Type
+				if p, isPtr := ct.(*types.Pointer); isPtr {
+					ct = p.Elem()
+				}
+				st, ok := ct.Underlying().(*types.Struct)
+				if !ok {
+					return true
+				}
+				for i, el := range t.Elts {
+					if kv, ok := el.(*ast.KeyValueExpr); ok {
+						if k, ok := kv.Key.(*ast.Ident); ok {
+							if fld, ok := info.Uses[k].(*types.Var); ok && fld.IsField() {
+								note(fld, kv.Value)
+							}
+						}
+					} else if i < st.NumFields() {
+						note(st.Field(i), el)
+					}
+				}
+			case *ast.AssignStmt:
+				if len(t.Lhs) != len(t.Rhs) {
+					return true
+				}
+				for i, l := range t.Lhs {
+					if sel, ok := ast.Unparen(l).(*ast.SelectorExpr); ok {
+						if sl := info.Selections[sel]; sl != nil {
+							if fld, ok := sl.Obj().(*types.Var); ok && fld.IsField() {
+								note(fld, t.Rhs[i])
+							}
+						}
+					}
+				}
+			}
+			return true
+		})
+	}
+	// an interface is a front of the etcd mutex when every field of that type is only given etcd mutexes
+	byIface := map[*types.TypeName]*tally{}
+	for fld, t := range stores {
+		tn := fld.Type().(*types.Named).Obj()
+		b := byIface[tn]
+		if b == nil {
+			b = &tally{}
+			byIface[tn] = b
+		}
+		b.etcd += t.etcd
+		b.other += t.other
+	}
+	for tn, t := range byIface {
+		if t.etcd > 0 && t.other == 0 {
+			c18etcdFronts[tn] = true
+		}
+	}
 }
 
 // c18syncOp classifies a call to a sync.Mutex / sync.RWMutex method: "Lock", "Unlock", "RLock",
